@@ -82,11 +82,35 @@ FortranProtoComplaints ==
                IF Len(p.args) = Len(c.args) /\ FortranRetOK(p.ret, c.ret) /\ \A k \in 1..Len(c.args) : FortranArgOK(p.args[k], c.args[k]) THEN {}
                ELSE {[binding |-> "fortran", name |-> p.name, declared |-> [ret |-> p.ret, args |-> p.args], c |-> [ret |-> c.ret, args |-> c.args], why |-> "interface differs from the C prototype"]}
         : i \in 1..Len(Bind.fortran.protos) }
+\* Pascal (Free Pascal, cdecl externals): <type as written, by reference?> against a C type
+PascalArgOK(a, ct) ==
+  LET typ == a[1] byref == a[2] c == DropConst(ct) IN
+  CASE typ = "longint" -> IF byref THEN c = "int*" ELSE c \in {"int", "xrl_error_code"}
+    [] typ = "double" -> IF byref THEN c = "double*" ELSE c = "double"
+    [] typ = "pansichar" -> ~byref /\ c = "char*"
+    [] typ = "ppansichar" -> ~byref /\ c = "char**"
+    [] typ = "ppxrl_error" -> ~byref /\ c = "xrl_error**"
+    [] typ = "pxrl_error" -> ~byref /\ c = "xrl_error*"
+    [] typ = "pcompounddata" -> ~byref /\ c = "struct compoundData*"
+    [] typ = "pcompounddatanist" -> ~byref /\ c = "struct compoundDataNIST*"
+    [] typ = "pradionuclidedata" -> ~byref /\ c = "struct radioNuclideData*"
+    [] typ = "pcrystalstruct" -> ~byref /\ c = "Crystal_Struct*"
+    [] typ = "pointer" -> ~byref /\ IsPtr(c)
+    [] typ = "xrlcomplex" -> IF byref THEN c = "xrlComplex*" ELSE c = "xrlComplex"
+    [] OTHER -> FALSE
+PascalRetOK(p, ct) == IF p.kind = "procedure" THEN ct = "void" ELSE PascalArgOK(<<p.ret, FALSE>>, ct)
+PascalProtoComplaints ==
+  UNION { LET p == Bind.pascal.protos[i] IN
+          IF p.name \notin DOMAIN CByName THEN {}
+          ELSE LET c == CByName[p.name] IN
+               IF Len(p.args) = Len(c.args) /\ PascalRetOK(p, c.ret) /\ \A k \in 1..Len(c.args) : PascalArgOK(p.args[k], c.args[k]) THEN {}
+               ELSE {[binding |-> "pascal", name |-> p.name, declared |-> [ret |-> p.ret, args |-> p.args], c |-> [ret |-> c.ret, args |-> c.args], why |-> "external declaration differs from the C prototype"]}
+        : i \in 1..Len(Bind.pascal.protos) }
 \* ---- exports and versions
 HeaderFunctions == { CProtos[i].name : i \in { i \in 1..Len(CProtos) : CProtos[i].header # "xraylib-error-private.h" } }
 ExportComplaints == { [name |-> n, why |-> "declared in a public header but not exported by the built library"] : n \in HeaderFunctions \ Range(Exports) }
 HeaderVersion == ToString(MiscMacro.XRAYLIB_MAJOR) \o "." \o ToString(MiscMacro.XRAYLIB_MINOR) \o "." \o ToString(MiscMacro.XRAYLIB_MICRO)
 VersionComplaints == { [file |-> Versions[i][1], version |-> Versions[i][2], header |-> HeaderVersion, why |-> "version differs from xraylib.h"] : i \in { i \in 1..Len(Versions) : Versions[i][2] # HeaderVersion } }
 AllComplaints == UNION { ConstComplaints(b) : b \in {"fortran", "pascal", "idl", "java"} } \cup UNION { Missing(b) : b \in {"fortran", "pascal", "idl", "java", "cython"} }
-                 \cup ByInclusion \cup CythonProtoComplaints \cup FortranProtoComplaints \cup ExportComplaints \cup VersionComplaints
+                 \cup ByInclusion \cup CythonProtoComplaints \cup FortranProtoComplaints \cup PascalProtoComplaints \cup ExportComplaints \cup VersionComplaints
 ==============================================================================
